@@ -55,6 +55,7 @@ type loopInfo struct {
 }
 
 type Gen struct {
+	ctIdents     map[string]bool
 	inlineOf     *Gen // non-nil: executing a contract-less helper in place on behalf of inlineOf
 	usedSites    map[string]bool
 	sitePos      token.Pos
@@ -98,6 +99,59 @@ type retPoint struct {
 	st      *State
 	results []string
 	prefix  int
+}
+
+func (g *Gen) rootFn() *ssa.Function {
+	x := g
+	for x.inlineOf != nil {
+		x = x.inlineOf
+	}
+	return x.fn
+}
+
+// contractIdents: every identifier occurring in the clauses of this function's contract (and its site contracts).
+func (g *Gen) contractIdents() map[string]bool {
+	if g.ctIdents != nil {
+		return g.ctIdents
+	}
+	g.ctIdents = map[string]bool{}
+	add := func(text string) {
+		toks, _ := lex(text)
+		for _, t := range toks {
+			if t.kind == "ident" {
+				g.ctIdents[t.val] = true
+			}
+		}
+	}
+	collect := func(ct *Contract) {
+		if ct == nil {
+			return
+		}
+		for _, c := range ct.Requires {
+			add(c.Text)
+		}
+		for _, c := range ct.Ensures {
+			add(c.Text)
+		}
+		for _, lc := range ct.Loops {
+			for _, c := range lc.Invariants {
+				add(c.Text)
+			}
+			for _, c := range lc.BodyAsserts {
+				add(c.Text)
+			}
+		}
+		for _, l := range ct.Lets {
+			add(l.Type) // the Type field of a let binder holds the expression text
+		}
+	}
+	collect(g.ct)
+	for k, ct := range g.eng.db.Contracts {
+		if ct.Site && strings.Contains(k, ":"+g.rootFn().String()+":") {
+			collect(ct)
+		}
+	}
+	return g.ctIdents
 }
 
 func (g *Gen) markSite(k string) {
